@@ -103,7 +103,20 @@ def checkCycle (inp obs : KV) : Option String × List (String × String) :=
     ("needs2", toString (obs.nat "needs2")), ("needs3", toString (obs.nat "needs3")), ("infl3", toString (obs.int "infl3"))]
   -- the monitors judge the observation alone: what the second cycle may deliver is what the FIRST OBSERVED cycle left
   let rem1 := buf.filter (fun o => !(o1.flatten).contains o.id)
+  -- what the watchers find in the batches they were handed, read after the cycle is over: "w>[ids]" (sorted by the harness)
+  let seenOf (v : String) : List (Nat × List Nat) :=
+    if v == "-" || v == "" then [] else (v.splitOn ";").map fun e => match e.splitOn ">" with
+      | [w, b] => ((w.toNat?).getD 0, natList ((b.replace "[" "").replace "]" ""))
+      | _ => (0, [])
+  let seenViol (seen : List (Nat × List Nat)) (raised : List (List Nat)) : List (String × String) :=
+    if !(obs.has "seen1") then [] else
+    let a := sortBatches (seen.map (·.2))
+    let b := sortBatches raised
+    (if a != b then [("C01", "watcher-finds-other-operations-than-were-raised-for-it"), ("C05", "batch-changed-after-it-was-handed-to-the-watcher")] else []) ++
+    (if seen.any (fun (w, ids) => ids.any fun id => match buf.find? (·.id == id) with | some o => o.w != w | none => true)
+      then [("C05", "watcher-handed-another-watchers-operation"), ("C01", "delivered-to-another-watcher")] else [])
   let viol := monitorCycle c buf o1 (obs.nat "inbuf1") ++ monitorCycle c2 rem1 o2 (obs.nat "inbuf2")
+    ++ seenViol (seenOf (obs.get "seen1")) o1 ++ seenViol (seenOf (obs.get "seen2")) o2
     ++ (if obs.nat "cb1" != o1.length then [("C01", "batches-raised-differ-from-callbacks-started")] else [])
     ++ (if obs.nat "needs1" != total then [("C03", "demand-differs-from-outstanding-cost-after-cycle")] else [])
     ++ (match slots with
